@@ -281,8 +281,10 @@ def execute(scn):
     argv = argv_of(scn)
     status = None
     escaped = None
+    arguments = None
     try:
         arguments = cli.parse_args(argv)
+        default_format = arguments.get("error_format")
         status = cli.run(arguments, stdout=out, stderr=err, stdin=stdin)
     except SystemExit as x:
         status = x.code
@@ -419,11 +421,13 @@ def execute(scn):
                             viol.append({"oracle": "library-error-missing-from-stderr", "where": 0,
                                          "detail": {"path": p, "message": m[:200]}})
                             break
-                if scn["output"] == "plain" and fmt is None and not viol:
+                if scn["output"] == "plain" and fmt is None and not viol and arguments is not None \
+                        and default_format and default_format.endswith("\n") and "{error" in default_format:
                     # default --error-format: one line per error; a line equal to an expected record must occur
                     # exactly as often as the library reports it (errors lost, repeated, or replayed from a
                     # previous instance show up here)
-                    dfmt = "{error.instance}: {error.message}"
+                    # the library's own default format, as parse_args filled it in (never hard-coded here)
+                    dfmt = (default_format or "").rstrip("\n")
                     want_lines = []
                     for p in list(expected_msgs):
                         c = classify(scn, p)
